@@ -305,15 +305,21 @@ package sm2
 //@   (uses "ec" "big" "big:axioms")
 //@   (requires init (consts))
 //@   (requires key (wfpub pub))
+//@   (requires field256 (<= (ec.p (tag (field pub Curve))) 115792089237316195423570985008687907853269984665640564039457584007913129639936))
 //@   (requires size (bvslt (len data) #x0000010000000000))
 //@   (ghost-havoc io.pos)
 //@   (ensures len (=> (isnil result.1) (= (len result.0) (bvadd 97 (len data)))))
 //@   (ensures either (= (isnil result.1) (not (isnil result.0))))
-//@   (loop 1 (invariant true true)))
+//@   (loop 1 (invariant true true))
+//@   (loop 2
+//@     (invariant range (and (bvsle 0 i) (bvsle i length)))
+//@     (invariant shape (and (= (len c) (bvadd 96 length)) (bvsle (len c) (cap c)) (fresh-obj c)))
+//@     (decreases (bvsub length i))))
 // Decrypt: an error for every ciphertext shorter than 1 + 64 + 32 bytes and for every C1 that is not on the curve.
 //@ (func Decrypt autoloops split-returns
 //@   (uses "ec" "big" "big:axioms")
 //@   (requires key (wfpriv priv))
+//@   (requires field256 (<= (ec.p (tag (field priv PublicKey Curve))) 115792089237316195423570985008687907853269984665640564039457584007913129639936))
 //@   (requires size (bvslt (len data) #x0000010000000000))
 //@   (ensures short (=> (bvslt (len data) 97) (not (isnil result.1))))
 //@   (ensures offcurve (=> (and (bvsge (len data) 97) (not (= mode 1))
